@@ -175,7 +175,9 @@ def triangulate(polygon):
         x = np.cross(c - b, b - a)
         dot = np.dot(normal, x)
         yld = False
-        if dot > 1E-6:
+        # The threshold is relative to the polygon's size (|normal| ~ area) so that the
+        # result does not depend on the unit of length.
+        if dot > 1E-6 * np.dot(normal, normal):
             triangle = (a, b, c)
             if not any_point_in_triangle(triangle,
                                          looped_slice_inv(polygon, i, 3)):
